@@ -228,6 +228,35 @@ def drain (nil : C) (o : Nat → C → Res κ ν C) : Nat → Iter κ ν C → L
     | (_, .stop) => ([], .done)
     | (_, .err) => ([], .error)
 
+/-! ### Foreign servers and the client-side page filter
+
+The client iterators and `ListX` talk to *any* server.  A foreign server is an oracle `o`; three
+concrete shapes are used by the driver and the theorems:
+* `scriptOracle tbl`: a table from the cursor received to the answer; an unknown cursor is refused;
+* `pagesOracle pages`: a listing cut into the given pages — any of them may be empty — linked by the
+  cursors `1, 2, …` (`0` is the empty cursor);
+* `filterOracle keep o`: `o` as seen through `ClientSession.ListTools`, which drops from every page
+  the tools that `filterValidTools` rejects and leaves `NextCursor` alone. -/
+
+def scriptOracle (tbl : List (C × Res κ ν C)) : Nat → C → Res κ ν C :=
+  fun _ c => match tbl.lookup c with
+    | some r => r
+    | none => .invalidParams
+
+def filterRes (keep : κ × ν → Bool) : Res κ ν C → Res κ ν C
+  | .page items next => .page (items.filter keep) next
+  | r => r
+
+def filterOracle (keep : κ × ν → Bool) (o : Nat → C → Res κ ν C) : Nat → C → Res κ ν C :=
+  fun i c => filterRes keep (o i c)
+
+/-- Request with cursor `c` (0 = first page) is answered with page number `c`; the next cursor is
+`c + 1` unless that was the last page. A cursor beyond the listing is refused. -/
+def pagesOracle (pages : List (List (κ × ν))) : Nat → Nat → Res κ ν Nat :=
+  fun _ c => match pages[c]? with
+    | some items => .page items (if c + 1 < pages.length then c + 1 else 0)
+    | none => .invalidParams
+
 end Paginate
 
 namespace Paginate
